@@ -41,7 +41,7 @@ _strip_doctest_re = re.compile(r'^>>> .*\Z', re.DOTALL | re.MULTILINE)
 
 
 # Regular expression to match digits
-_digits_re = re.compile(r'^[0-9]+$')
+_digits_re = re.compile(r'^[0-9]+\Z')
 
 
 def _mk_char_map(mapping):
